@@ -59,8 +59,8 @@ func (wl *WhopLoc) Continue(s *Scope, args List, depth int) Object {
 }
 
 func (wl *WhopLoc) HasNext() bool {
-	for wl.Current++; wl.Current < len(wl.Method.Combinations); wl.Current++ {
-		if wl.Method.Combinations[wl.Current].Wrap != nil {
+	for i := wl.Current + 1; i < len(wl.Method.Combinations); i++ {
+		if wl.Method.Combinations[i].Wrap != nil {
 			return true
 		}
 	}
